@@ -11,6 +11,8 @@
        number after the run, PossDupFlag=Y); a remembered Reject may be replayed or gap-filled (decision);
        a run of gap-filled numbers is one SequenceReset or several (decision);
      * then continues normally with its next number;
+     * may itself ask for a resend of the session's messages (a numbered ResendRequest, scenario action `M 2 7=..,16=..`);
+       what the session sends in answer is not inspected (only the session's own ResendRequests are answered);
      * its Logon carries its next number, whatever the session expects.
    Nondeterminism = the scenario: which messages are lost, and the list of decisions (Scenario.v).
 
